@@ -100,6 +100,82 @@ class AuditStream(Stream):
                 'print(AuditStream().impl(json.loads(%r)))' % __import__('json').dumps(c))
 
 
+class CachedLogStream(AuditStream):
+    """the same cases asked three times through a cached guard: the first call is compared with the model, the
+    two repeats (served from the decision cache) must still emit exactly one agreeing decision-log record each"""
+    name = 'cached_guard_decision_log'
+    rule = ('the C01-style cases asked three times (the second and third time as content-equal fresh Inquiry '
+            'objects) through create_cached_guard over MemoryStorage; per call: answer, decision-log records on '
+            'vakt.guard, audit records on vakt.audit. non-trivial = at least one stored policy matches')
+
+    def generate(self, rng, tier):
+        n = 300 if tier == 'quick' else 3000
+        for k in range(n):
+            sc = gen.scenario(rng, specs.CHECKERS[k % 4], illtyped=0.0, raising=False)
+            sc['msg'] = 'MsgUid'
+            yield sc
+
+    def _calls(self, c):
+        import vakt.audit as va
+        from vakt.cache import create_cached_guard
+        from vakt.storage.memory import MemoryStorage
+        st0 = MemoryStorage()
+        for p in c['policies']:
+            st0.add(specs.mk_policy(p))
+        guard, st, cache = create_cached_guard(st0, specs.mk_checker(c['checker']), maxsize=16)
+        guard.apm = getattr(va, MSG['MsgUid'])
+        out = []
+        for _ in range(3):
+            inq = specs.mk_inquiry(c['inquiry'])
+            with guardlib.capture_logs() as cap:
+                try:
+                    ans = guard.is_allowed(inq)
+                except BaseException as e:  # noqa
+                    out.append((s_exc(e), [], []))
+                    continue
+            out.append((ans, cap.decision_logs(), list(cap.audit.records)))
+        return out
+
+    def impl(self, c):
+        calls = self._calls(c)
+        parts = []
+        for i, (ans, logs, recs) in enumerate(calls):
+            if isinstance(ans, str):
+                parts.append(ans)
+                continue
+            if i == 0:
+                audits = ['%s c=%s d=%s' % (getattr(r, 'effect', '?'), s_pstr(str(getattr(r, 'candidates', '?'))),
+                                            s_pstr(str(getattr(r, 'deciders', '?')))) for r in recs]
+                parts.append('%s log=%s audits=%s' % (s_bool(ans), '+'.join(logs) if logs else '-', '|'.join(audits)))
+            else:
+                parts.append('hit %s log=%s audits=%d' % (s_bool(ans), '+'.join(logs) if logs else '-', len(recs)))
+        return ' | '.join(parts)
+
+    def same(self, io, mo):
+        return io.split(' | ')[0] == mo
+
+    def oracle(self, c, obs):
+        if obs.startswith(('E:', 'B:')):
+            return 'decision raised: %s' % obs
+        parts = obs.split(' | ')
+        first = parts[0].split(' ')[0]
+        for i, p in enumerate(parts[1:], 1):
+            f = p.split(' ')
+            if f[0] != 'hit':
+                return 'call %d raised: %s' % (i, p)
+            if f[1] != first:
+                return 'repeated inquiry answered %s, first answer %s' % (f[1], first)
+            want = 'log=' + ('allowed' if f[1] == 'T' else 'rejected')
+            if f[2] != want:
+                return 'call %d (served from the decision cache) emitted decision-log records %r, expected exactly %r' % (
+                    i, f[2], want)
+        return None
+
+    def describe(self, c):
+        return ('import json; from harness.checks.c17 import CachedLogStream; '
+                'print(CachedLogStream().impl(json.loads(%r)))' % __import__('json').dumps(c))
+
+
 TRUSTED = [
     'Coq 8.16.1 kernel + vm_compute (no native_compute)',
     'Model/Guard.v (audit events of check_policies_allow / is_allowed_check / is_allowed) and Model/Audit.v '
@@ -107,12 +183,12 @@ TRUSTED = [
     'python logging delivers one record per call to handlers attached to vakt.audit / vakt.guard',
 ]
 ASSUME = ['uids and descriptions rendered with str() are None / bool / int / str (others are skipped as unmodelled)',
-          'the decision-cache clause (answers served from AllowanceCache) is covered by the C11 check']
+          'a cache hit emits the decision-log record but no audit record (the audit record belongs to the evaluation)']
 
 
 def main(argv):
-    return run_check('C17', [AuditStream()], argv, trusted_base=TRUSTED, assumptions=ASSUME,
-                     translated=('guard', 'checker', 'pin_audit'))
+    return run_check('C17', [AuditStream(), CachedLogStream()], argv, trusted_base=TRUSTED, assumptions=ASSUME,
+                     translated=('guard', 'checker', 'parser', 'subject', 'observable', 'pin_audit', 'pin_rules', 'pin_util'))
 
 
 if __name__ == '__main__':
